@@ -21,9 +21,9 @@ def random_config(rng, allow_cache0=False, allow_halfway=True):
                cache_size=rng.choice(([0] if allow_cache0 else []) + [1, 2, 3, 45, None]),
                dt=rng.choice([None, None, 0.05, 0.3]), tol=0.0, halfway=False)
     if allow_halfway and rng.random() < 0.25:
-        cfg.update(halfway=True, tol=rng.choice([1e-3, 1e-4]), dt=None)
+        cfg.update(halfway=True, tol=rng.choice([1e-3, 1e-4, 5e-4, 2e-3]), dt=None)
     elif rng.random() < 0.2:
-        cfg.update(tol=rng.choice([1e-3, 1e-6]))
+        cfg.update(tol=rng.choice([1e-3, 1e-6, 5e-4, 3e-5]))
     return cfg
 
 
@@ -523,7 +523,8 @@ def robustness_search(rng, n_cfg, n_long):
             adversarial.append((a, min(t1, a + rng.choice([1e-9, 1e-12, 1e-15, 3e-17]))))
         adversarial += [(t1 - 4e-14, t1), (t0, t0 + 1e-13), (t0, t0), (t1, t1)]
         if cfg['tol'] > 0:
-            tol = cfg['tol']
+            # the rounding grid has resolution 10^-ndigits, which is COARSER than tol unless tol is a power of ten
+            tol = 10.0 ** int(math.log10(cfg['tol']))
             for _ in range(25):
                 gp = resolved(cfg, rng.uniform(t0 + 2 * tol, t1 - 2 * tol))
                 lo = gp - rng.uniform(0.05, 0.49) * tol
@@ -536,14 +537,16 @@ def robustness_search(rng, n_cfg, n_long):
     # constructor corner cases
     for kw in [dict(tol=1e-3, dt=1e-5), dict(tol=1e-2, dt=1e-3, cache_size=3), dict(cache_size=0, dt=0.1), dict(cache_size=0),
                dict(cache_size=1), dict(halfway=True, tol=1e-3, dt=None), dict(halfway=True, tol=1e-6, dt=None),
-               dict(halfway=True, tol=1e-4, dt=None, subtol=True), dict(tol=1e-3, subtol=True)]:
+               dict(halfway=True, tol=1e-4, dt=None, subtol=True), dict(tol=1e-3, subtol=True),
+               dict(halfway=True, tol=5e-4, dt=None, subtol=True), dict(halfway=True, tol=2e-3, dt=None, subtol=True),
+               dict(tol=5e-4, subtol=True)]:
         cfg = dict(t0=0.0, span=1.0, size=(2,), levy='space-time', entropy=7, cache_size=45, dt=None, tol=0.0, halfway=False)
         subtol = kw.pop('subtol', False)
         cfg.update(kw)
         n = 130
         hist = [(i / n, (i + 1) / n) for i in range(n)]
         if subtol:
-            tol = cfg['tol']
+            tol = 10.0 ** int(math.log10(cfg['tol']))  # resolution of the rounding grid
             hist = hist[:20]
             for j in range(40):
                 gp = round(0.1 + 0.02 * j, 4)
